@@ -1186,6 +1186,8 @@ fn c04_ro_alloc_typed_sync() {
 #[repr(align(16))]
 pub(crate) struct A16([u8; 16]);
 pub(crate) type P12 = (u64, u32);
+#[repr(align(32))]
+pub(crate) struct A32([u8; 32]);
 
 macro_rules! c03_step {
   ($name:ident, $arena:ty, $ty:ty, $fl:ident, $kind:ident, $n:expr, $m:expr, $unwind:expr) => {
@@ -1208,6 +1210,13 @@ c03_step!(inv_alloc_aligned_u64_unsync_opt, unsync::Arena, u64, Optimistic, Alig
 c03_step!(inv_alloc_aligned_zst8_unsync_opt, unsync::Arena, [u64; 0], Optimistic, Aligned, 1, 2, 4);
 // @h props=C03,C01 quick=C03 timeout=900 bounds=CAP=128,MAXN=1,T=() optcover=fast_path_with_a_non-empty_list|slow_path_with_split|slow_path_without_split|error_with_a_non-empty_list
 c03_step!(inv_alloc_typed_unit_sync_opt, sync::Arena, (), Optimistic, Typed, 1, 2, 4);
+// over-aligned T (alignment larger than the 8-byte node header can absorb)
+// @h props=C03,C01,C04,C10 quick=C01,C03 timeout=1800 bounds=CAP=128,MAXN=2,T=align32x32
+c03_step!(inv_alloc_typed_a32_unsync_pess, unsync::Arena, A32, Pessimistic, Typed, 2, 3, 5);
+// @h props=C03,C01,C04,C10 quick=C01,C04 timeout=1800 bounds=CAP=128,MAXN=2,T=align32x32,retries=1
+c03_step!(inv_alloc_typed_a32_sync_opt, sync::Arena, A32, Optimistic, Typed, 2, 3, 5);
+// @h props=C03,C01,C10 tier=thorough timeout=1800 bounds=CAP=128,MAXN=2,T=align32x32,n<=256
+c03_step!(inv_alloc_aligned_a32_unsync_opt, unsync::Arena, A32, Optimistic, Aligned, 2, 3, 5);
 // thorough: rest of the layout list
 // @h props=C03,C01,C10 tier=thorough timeout=1800 bounds=CAP=128,MAXN=2,T=u8
 c03_step!(inv_alloc_typed_u8_sync_opt, sync::Arena, u8, Optimistic, Typed, 2, 3, 5);
